@@ -104,6 +104,9 @@ Definition mk_rxbuf (c : pcfg) (fill : N) (bytes : list byte) : list byte :=
   let fr := firstn n bytes in
   fr ++ repeat fill (n - length fr).
 
+(* what recvfrom(..., rxsize) reports for a frame of [bytes] on the wire *)
+Definition rx_len (c : pcfg) (bytes : list byte) : N := N.min (N.of_nat (length bytes)) (c_rxsize c).
+
 Inductive ctor_kind := KMapping | KSession | KEnumeration | KTable.
 
 Inductive op :=
@@ -187,7 +190,7 @@ Section Run.
       ret (set_reg y r, RNone)
     | OClassify ctx fill bytes =>
       let c := cfg_of y ctx in
-      ev <- lift OobRead (classify (mk_rxbuf c fill bytes) (N.of_nat (length bytes)) (a_tbl (aset_of y ctx)) (own c)) ;;
+      ev <- lift OobRead (classify (mk_rxbuf c fill bytes) (rx_len c bytes) (a_tbl (aset_of y ctx)) (own c)) ;;
       ret (y, RInt ev)
     | OEsp32 ctx len bytes =>
       now <- now_s ;;
@@ -198,7 +201,7 @@ Section Run.
       let c := cfg_of y ctx in
       let buf := mk_rxbuf c fill bytes in
       now <- now_ms ;;
-      ev <- lift OobRead (classify buf (N.of_nat (length bytes)) (a_tbl (aset_of y ctx)) (own c)) ;;
+      ev <- lift OobRead (classify buf (rx_len c bytes) (a_tbl (aset_of y ctx)) (own c)) ;;
       h <- lift OobRead (parse_hdr buf) ;;
       let a1 := flow_automata now h ev (aset_of y ctx) in
       r <- parse_frame af sf junk ctx c (y_g y) (y_reg y) buf ;;
